@@ -170,3 +170,10 @@ Definition string_rule (files : list (bytes * schema)) (path name : bytes) : opt
                      end
   | _ => None
   end.
+
+(* the pattern of a string definition *)
+Definition def_pattern (files : list (bytes * schema)) (path name : bytes) : option pattern :=
+  match def_of files path name with
+  | Some (SKw ks) => kws_pattern ks
+  | _ => None
+  end.
